@@ -1033,6 +1033,8 @@ def check(P, R, tier):
     R.floor("RF2-round", "decoded (time, target, direction, --next) points of the time rounding", nt, 100000)
     ndt = rounddecode.run_dt_parallel(R, P, "RF2-round", jobs=14)
     R.floor("RF2-round", "decoded points of the co-class rounding of date-times", ndt, 20000)
+    ne = rounddecode.run_epoch(R, P, "RF2-round")
+    R.floor("RF2-round", "decoded points of the co-class rounding of epoch values", ne, 400)
     check_fresh(P, R, tu)
     per_fn = check_fourway(P, R, tu)
     check_same(P, R, per_fn)
